@@ -126,3 +126,65 @@ def graph_check(prop, tier, parts, *, level='model_checking', rule, assumptions=
             print(f'HARNESS-ERROR {prop}: {p}')
         return 3
     return 1 if nv else 0
+
+
+def enum_check(prop, tier, parts, *, level='exploration', rule, assumptions=(), vacuity=None, extra_cov=None):
+    """parts: list of dicts {label, worker, items, opts, chunk}. worker(ns, items, res, opts) records
+    findings with explore.add_simple_finding and counts res.transitions (= evaluations), res.nontrivial,
+    res.by_outcome, res.by_class, res.samples."""
+    t0 = time.time()
+    target.load()
+    sd = seed()
+    tot = explore.Result()
+    caps = []
+    cov_parts = []
+    for part in parts:
+        opts = dict(part.get('opts', {}))
+        opts['seed'] = sd
+        opts['prop'] = prop
+        res, info = explore.run_enum(part['worker'], part['items'], opts, part.get('chunk', 200),
+                                     part.get('time_cap', 200 if tier == 'quick' else 6000))
+        for f in res.findings.values():
+            f['part'] = part['label']
+        tot.merge(res)
+        caps += [f"{part['label']}: {c}" for c in info['caps_hit']]
+        cov_parts.append({'part': part['label'], 'items': info['items'], 'evaluations': res.transitions,
+                          'wall_s': round(info['wall_s'], 2)})
+    flist = list(tot.findings.values())
+    nv, nk = findings.report(prop, flist)
+    problems = []
+    if len(tot.by_outcome) < 2:
+        problems.append(f'only {len(tot.by_outcome)} distinct outcome class observed')
+    if vacuity:
+        problems.extend(vacuity(tot))
+    coverage = {
+        'evaluations': tot.transitions,
+        'distinct_nontrivial': tot.nontrivial,
+        'rule': rule,
+        'samples': tot.samples[:6] or [{'note': 'no sample selected'}],
+        'exhaustive': not caps,
+        'caps_hit': caps,
+        'parts': cov_parts,
+        'distinct_outcome_classes': dict(sorted(tot.by_outcome.items(), key=lambda kv: -kv[1])),
+        'cases_by_class': dict(sorted(tot.by_class.items())) if len(tot.by_class) <= 80 else {'distinct': len(tot.by_class)},
+        'counters': dict(sorted(tot.extra.items())),
+        'violation_signatures': nv,
+        'known_finding_signatures': nk,
+        'workers': explore.NWORKERS,
+        'repo': target.REPO,
+    }
+    if level == 'model_checking':
+        coverage['states'] = int(tot.extra.get('states', tot.states)) or 1
+        coverage['transitions'] = tot.transitions
+        coverage['traces_validated_against_impl'] = int(tot.extra.get('traces', tot.transitions))
+    if extra_cov:
+        coverage.update(extra_cov)
+    wall = time.time() - t0
+    evidence.write(prop, tier, sd, level, coverage, wall, nv, assumptions)
+    print(f'{prop} [{tier}] evaluations={tot.transitions} nontrivial={tot.nontrivial} '
+          f'violations={nv} known={nk} caps={len(caps)} wall={wall:.1f}s')
+    if problems:
+        for p in problems:
+            print(f'HARNESS-ERROR {prop}: {p}')
+        return 3
+    return 1 if nv else 0
